@@ -1,6 +1,6 @@
 // C03 — aliased parameters track their source through every update, copy and renaming
 // VF-VARIANT: san
-// VF-RULE: E1: breadth-first exploration of all histories over one AbstractParameterAliasable object with N parameters: aliasParameters(i,j) for all ordered pairs incl. i==j, unaliasParameters(i,j), bulk aliasParameters(map) for every name map with <= 3 (N=3) / <= 2 (N=4) entries, setParameterValue, setParametersValues / matchParametersValues with every sub-list over values {1,2,3}, setAllParametersValues, copy-construction (continue on the copy; and transient copy mutated to show independence), assignment into objects with three different pre-existing alias forests (continue on the assigned object; and transient), setNamespace. Four constraint configurations (none; all equal; different nested intervals; one bound value shared with different open/closed ends, so that the intersection has to combine the end flags). Non-trivial: the transition changed the canonical state or was refused.
+// VF-RULE: E1: breadth-first exploration of all histories over one AbstractParameterAliasable object with N parameters: aliasParameters(i,j) for all ordered pairs incl. i==j, unaliasParameters(i,j), bulk aliasParameters(map) for every name map with <= 3 (N=3) / <= 2 (N=4) entries, setParameterValue, setParametersValues / matchParametersValues with every sub-list over values {1,2,3}, setAllParametersValues, copy-construction (continue on the copy; and transient copy mutated to show independence), assignment into objects with three different pre-existing alias forests (continue on the assigned object; and transient), self-assignment, setNamespace. Four constraint configurations (none; all equal; different nested intervals; one bound value shared with different open/closed ends, so that the intersection has to combine the end flags). Non-trivial: the transition changed the canonical state or was refused.
 // VF-BOUND: quick: N=3 without constraints to closure, N=3 mixed constraints to depth 3, N=3 shared-bound/different-strictness constraints to depth 2, N=4 to depth 2, N=4 to depth 3 over the link-centred alphabet (alias, unalias, bulk alias, single-value updates, copy/assign/rename); thorough: N=3 to closure in all three constraint configurations, N=4 to depth 4, N=4 link-centred alphabet to depth 5; instead of 2..6 parameters; values {1,2,3} inside every intersected constraint
 // VF-LEVEL: Explicit-state closure of the alias protocol on the real object for 3 parameters (every history of any length over the alphabet), depth-bounded for 4, against a parent-array reference model; every bulk-alias call runs under a CPU-time alarm so non-termination is reported with the map as witness.
 // VF-ASSUME: ASan/UBSan/libstdc++ assertions are sound detectors;; reference model: parent array + values + per-parameter interval; aliasing does not copy the value at alias time (only later changes of the source propagate), as implemented and as the statement words it;; bulk aliasing is judged on termination, on performing every requested link when it returns, and on leaving a consistent object when it raises (partial application before a raise is allowed)
@@ -98,7 +98,7 @@ struct Sys : vf::SysBase {
     nAlias = n * n; nUnalias = n * n; nMaps = (int)maps.size(); nSet = n * 3; nSub = (int)subl.size(); nAll = 1; for (int i = 0; i < n; ++i) nAll *= 3;
     if (reduced) nAll = 0;
   }
-  int nops() const { return nAlias + nUnalias + nMaps + nSet + 2 * nSub + nAll + 2 + 6 + 2; }
+  int nops() const { return nAlias + nUnalias + nMaps + nSet + 2 * nSub + nAll + 2 + 6 + 2 + 1; }
   struct Dec { int kind, a, b; };
   Dec dec(int op) const {
     if (op < nAlias) return {0, op / N, op % N}; op -= nAlias;
@@ -110,7 +110,8 @@ struct Sys : vf::SysBase {
     if (op < nAll) return {6, op, 0}; op -= nAll;
     if (op < 2) return {7, op, 0}; op -= 2;
     if (op < 6) return {8, op / 2, op % 2}; op -= 6;
-    return {9, op, 0};
+    if (op < 2) return {9, op, 0}; op -= 2;
+    return {10, 0, 0};
   }
   std::string mapStr(const std::map<std::string, std::string>& m) const { std::string s = "{"; for (auto& kv : m) s += kv.first + "->" + kv.second + " "; return s + "}"; }
   std::string sublStr(const std::vector<int>& d) const { std::string s = "{"; for (int i = 0; i < N; ++i) if (d[(size_t)i]) s += pname(i) + "=" + str(d[(size_t)i]) + " "; return s + "}"; }
@@ -126,7 +127,8 @@ struct Sys : vf::SysBase {
       case 6: { std::string s = "setAllParametersValues({"; int q = d.a; for (int i = 0; i < N; ++i) { s += pname(i) + "=" + str(q % 3 + 1) + " "; q /= 3; } return s + "})"; }
       case 7: return d.a ? "copy-construct, mutate the copy, original must not change (copy dropped)" : "O := copy-construct(O) (continue on the copy)";
       case 8: return std::string(d.b ? "Q(forest " : "O := Q(forest ") + str(d.a) + ") = O" + (d.b ? "; mutate Q, O must not change (Q dropped)" : " (continue on the assigned object)");
-      default: return std::string("setNamespace(\"") + (d.a ? "n." : "") + "\")";
+      case 9: return std::string("setNamespace(\"") + (d.a ? "n." : "") + "\")";
+      default: return "O = O (self-assignment)";
     }
   }
   std::string canon() const { return canonObj(*O) + " || " + M.s(); }
@@ -238,7 +240,8 @@ struct Sys : vf::SysBase {
           }
         } else O = std::move(Q);
         break; }
-      default: { std::string ns = d.a ? "n." : ""; M.ns = ns; c.site("setNamespace"); call([&] { O->setNamespace(ns); }); break; }
+      case 9: { std::string ns = d.a ? "n." : ""; M.ns = ns; c.site("setNamespace"); call([&] { O->setNamespace(ns); }); break; }
+      default: { c.site("operator=(self)"); Obj& self = *O; call([&] { *O = self; }); break; }   // an assignment like any other: same relations, same independent set
     }
     if (c.muted) return;
     std::string part = on.substr(0, on.find('('));
